@@ -55,6 +55,10 @@ type sworld struct {
 	features map[string]int // what the generator actually produced (evidence)
 	// epochSeqMid: see worldOpts.epochSeq
 	epochSeqMid int
+	// deep: the deep directory chain of a deep-tree world (c08_deep.go)
+	deep *deepTree
+	// farFrac: see worldOpts.farFrac
+	farFrac bool
 }
 
 // atCase: permanode pn had `value` more than once under attr, then a del-attribute of that value
@@ -128,6 +132,12 @@ type worldOpts struct {
 	// the epoch; 0 = unknown yet (a first generation pass measures sworld.epochSeqMid, the ordinal
 	// reached in the middle of genEpochFeatures, see genEpochWorld)
 	epochSeq int
+	// farFrac (with far): the far dates are farFracDateValues (sub-second parts, tied and nearly tied
+	// groups) and nearly every permanode carries one
+	farFrac bool
+	// deep: number of directory levels of one static directory chain whose lowest directory alone holds
+	// the "needle" file and directory (c08_deep.go); 0 = none
+	deep int
 }
 
 // genEpochWorld generates an epoch world twice from the same random stream: the first pass measures
@@ -160,6 +170,26 @@ var farDateValues = []string{
 	"2262-04-11T23:47:16Z",
 	"9999-12-31T23:59:59+14:00",
 	"1601-01-01T00:00:00Z",
+}
+
+// farFracDateValues: instants before 1678 / after 2262 WITH a sub-second part (.75, .5, 1 ns, 999999999 ns),
+// in groups that are tied (several permanodes on one instant, also across zone notations) or lie
+// within a few nanoseconds / a second or two of each other, next to whole-second neighbours.
+var farFracDateValues = []string{
+	// 1455: six on .75, then .5, .25, the second before (.5 and whole), two seconds before
+	"1455-03-01T12:00:00.75Z", "1455-03-01T14:00:00.75+02:00", "1455-03-01T12:00:00.75Z", "1455-03-01T06:30:00.75-05:30", "1455-03-01T12:00:00.75Z", "1455-03-01T12:00:00.75Z",
+	"1455-03-01T12:00:00.5Z", "1455-03-01T12:00:00.25Z", "1455-03-01T11:59:59.5Z", "1455-03-01T11:59:59Z", "1455-03-01T11:59:58.25Z", "1455-03-01T12:00:00Z",
+	// 1215: three on 1 ns past the second, the second itself (twice), 1 ns and 2 ns before it
+	"1215-06-15T00:00:00.000000001Z", "1215-06-15T00:00:00.000000001Z", "1215-06-15T02:00:00.000000001+02:00", "1215-06-15T00:00:00Z", "1215-06-15T00:00:00Z",
+	"1215-06-14T23:59:59.999999999Z", "1215-06-14T23:59:59.999999998Z",
+	// year 1: three on 999999999 ns, half a second and nearly two seconds before
+	"0001-06-15T12:00:00.999999999Z", "0001-06-15T12:00:00.999999999Z", "0001-06-15T12:00:00.999999999Z", "0001-06-15T12:00:00.5Z", "0001-06-15T11:59:59.000000002Z", "0001-06-15T11:59:59Z",
+	// right before the smallest instant an int64 of nanoseconds holds (…12:43.145224192Z)
+	"1677-09-21T00:12:43.145224191Z", "1677-09-21T00:12:43.145224191Z", "1677-09-21T00:12:43.1Z", "1677-09-21T00:12:42.9Z",
+	// after 2262: the same shapes with positive seconds
+	"2500-01-01T00:00:00.75Z", "2500-01-01T00:00:00.75Z", "2499-12-31T16:00:00.75-08:00", "2500-01-01T00:00:00.25Z", "2499-12-31T23:59:59.5Z",
+	"2300-07-04T08:00:00.000000001Z", "2300-07-04T08:00:00.000000001Z", "2300-07-04T08:00:00Z", "2300-07-04T07:59:59.999999999Z",
+	"9999-12-31T23:59:59.999999999Z", "9999-12-31T23:59:59.999999999Z", "2262-04-11T23:47:16.854775808Z", "2262-04-11T23:47:16.854775808Z",
 }
 
 func genSearchWorldX(rng *rand.Rand, label string, nPN int, tiedTimes bool, exotic bool, o worldOpts) *sworld {
@@ -237,6 +267,9 @@ func genSearchWorldX(rng *rand.Rand, label string, nPN int, tiedTimes bool, exot
 		}
 		dirRefs = append(dirRefs, db.Ref)
 		w.names = append(w.names, name)
+	}
+	if o.deep > 0 {
+		dirRefs = append(dirRefs, w.genDeepTree(label, o.deep)...)
 	}
 	// plain blobs
 	var plain []blob.Ref
@@ -554,7 +587,11 @@ func genSearchWorldX(rng *rand.Rand, label string, nPN int, tiedTimes bool, exot
 		w.epochSeqMid = (from + seq) / 2
 	}
 	if o.far {
+		w.farFrac = o.farFrac
 		w.genFarDates(rng, claim)
+	}
+	if o.deep > 0 {
+		w.linkDeepTree(claim)
 	}
 	if dangling {
 		for i, pn := range w.pns {
@@ -657,11 +694,18 @@ func specialTimeCarrier(i int) bool { return i%7 != 6 && i%5 != 4 && i%4 != 1 }
 // genFarDates (worldOpts.far): date attributes outside the years 1678..2262 on about half of the permanodes.
 func (w *sworld) genFarDates(rng *rand.Rand, claim func(kind string, pn blob.Ref, attr, val string) time.Time) {
 	off, k := rng.Intn(len(dateAttrCycle)*6), 0
+	values := farDateValues
+	if w.farFrac {
+		// a rotation of the list that depends on the seed: which of the values are left out when there
+		// are fewer carriers than values differs from seed to seed
+		rot := rng.Intn(len(farFracDateValues))
+		values = append(append([]string{}, farFracDateValues[rot:]...), farFracDateValues[:rot]...)
+	}
 	for i, pn := range w.pns {
-		if !specialTimeCarrier(i) {
+		if !specialTimeCarrier(i) && !(w.farFrac && i%7 != 6 && i%5 != 4) {
 			continue
 		}
-		val := farDateValues[k%len(farDateValues)]
+		val := values[k%len(values)]
 		attr := dateAttrCycle[(off+k)%len(dateAttrCycle)]
 		k++
 		inst, err := time.Parse(time.RFC3339, val)
@@ -677,6 +721,9 @@ func (w *sworld) genFarDates(rng *rand.Rand, claim func(kind string, pn blob.Ref
 		w.features["date-attr/"+attr]++
 		w.features["date-attr/notation/"+zoneOf(val)]++
 		w.features["far/date-attr-outside-1678-2262"]++
+		if inst.Nanosecond() != 0 {
+			w.features["far/date-attr-outside-1678-2262-with-sub-second-part"]++
+		}
 	}
 }
 
